@@ -121,6 +121,13 @@ func UnaryTol(op string, dt DType, x, y float64) float64 {
 		return 0
 	}
 	tol := 8*Ulp(dt, y) + smallestNormal(dt)
+	if op == "Sigmoid" || op == "Tanh" {
+		// exp() evaluated in the element precision by range reduction carries a
+		// relative error proportional to |x| (x = k*ln2 + r is formed in that
+		// precision); allow 2|x| further ulps. The results saturate for |x| > ~90
+		// (float32) / ~710 (float64), so this stays tiny in absolute terms.
+		tol += 2 * math.Min(math.Abs(x), 800) * Ulp(dt, y)
+	}
 	// Functions evaluated through float64 math and rounded once are far inside this.
 	// Trigonometric functions of huge arguments are ill-conditioned only in the
 	// argument, which is exact here, so no extra allowance is needed.
